@@ -50,6 +50,7 @@ partial def feOf : SX → Option FE
   | .node "pro" [a] => do pure (.protoOf (← feOf a))
   | .node "rgx" [] => some .regex
   | .node "fcc" [.node k []] => k.toNat?.map .fcc
+  | .node "acf" [.node k [], f] => do pure (.accFn (k = "s") (← feOf f))
   | .node "fnc" [.node "fn" [.node "_" [], .node "PS" [], .node "V" vs, .node "D" ds, .node "S" ss]] => do
       pure (.fnCtor (.func none [] (names vs) (← declsOf ds) (← fssOf ss)))
   | .node "cnd" [t, a, b] => do pure (.cond (← feOf t) (← feOf a) (← feOf b))
